@@ -17,6 +17,16 @@ pub struct Violation {
 
 impl Violation {
     pub fn new(class: &str, step: usize, detail: String) -> Self {
+        // details quote observed values; a megabyte body must not end up in a replay file
+        let detail = if detail.len() > 3000 {
+            let mut cut = 3000;
+            while !detail.is_char_boundary(cut) {
+                cut -= 1;
+            }
+            format!("{} ... [{} more bytes]", &detail[..cut], detail.len() - cut)
+        } else {
+            detail
+        };
         Violation { class: class.to_string(), step, detail }
     }
     pub fn to_json(&self) -> J {
